@@ -106,6 +106,9 @@ def case_split(pieces, facts, max_conds=3):
                     if st[0] == "cond":
                         mapping[st] = st[2] if choice[conds.index(st[1])] else st[3]
         ps2 = [_rewrite_piece(p, mapping) for p in pieces] if mapping else list(pieces)
+        if conds:
+            # statements whose guards contradict the case are not executed in it
+            ps2 = [p for p in ps2 if not (p["guards"] and affine.infeasible(f2 + affine.guard_constraints(p["guards"])))]
         mods = {}
         for p in ps2:
             for t in _piece_terms(p):
@@ -120,6 +123,45 @@ def case_split(pieces, facts, max_conds=3):
         if mods:
             ps2 = [_rewrite_piece(p, mods) for p in ps2]
         yield " and ".join(desc), f2, ps2
+
+
+def ascending_range(lp):
+    """(lo, hi exclusive) of the values a unit-stride counted loop visits, whichever direction it runs; None otherwise"""
+    st = sym.const_value(lp["step"])
+    if st == 1 and lp["cmp"] in ("<", "<="):
+        return lp["lo"], lp["hi"] if lp["cmp"] == "<" else sym.add(lp["hi"], I(1))
+    if st == -1 and lp["cmp"] in (">", ">="):
+        return (sym.add(lp["hi"], I(1)) if lp["cmp"] == ">" else lp["hi"]), sym.add(lp["lo"], I(1))
+    return None
+
+
+def normalise_dest(p, out_array):
+    """Re-parameterise a store  out[d(m)] = f(m), m in a unit-stride range, d = +/-m + c,  by its destination index:
+    out[i] = f(m(i)) for i in the image range (ascending).  The statements of such a loop write distinct elements, so
+    the map it computes does not depend on the order of the iterations (the caller separately requires that input and
+    output do not overlap, or checks the aliasing rule)."""
+    lp = p["loops"][-1]
+    m = lp["var"]
+    lv = p["lv"]
+    rng = ascending_range(lp)
+    if lv[0] != "idx" or lv[1] != out_array or rng is None:
+        return p
+    lo, hi = rng
+    if lv[2] == m and sym.const_value(lp["step"]) == 1:
+        return p
+    lin = sym.linear_in(lv[2], m)
+    if lin is None or lin[0] not in (I(1), I(-1)) or sym.contains(lin[1], m):
+        return p
+    c = lin[1]
+    i2 = sym.sym(m[1] + "'")
+    if lin[0] == I(1):
+        m_of_i, lo2, hi2 = sym.sub(i2, c), sym.add(lo, c), sym.add(hi, c)
+    else:
+        m_of_i, lo2, hi2 = sym.sub(c, i2), sym.add(sym.sub(c, hi), I(1)), sym.add(sym.sub(c, lo), I(1))
+    q = _rewrite_piece(p, {m: m_of_i})
+    q["loops"] = list(q["loops"][:-1]) + [dict(lp, var=i2, lo=lo2, hi=hi2, cmp="<", step=I(1), reparameterised=sym.show(m))]
+    q["lv"] = sym.idx(out_array, i2)
+    return q
 
 
 def check_map_cases(pieces, out_array, in_array, N, sigma, shift, facts, extra_terms=(), want_op="="):
@@ -140,6 +182,7 @@ def check_map(pieces, out_array, in_array, N, sigma, shift, facts, extra_terms=(
     infos = []
     by_guard = {}
     for p in pieces:
+        p = normalise_dest(p, out_array)
         lp = p["loops"][-1]
         i = lp["var"]
         if p["lv"] != sym.idx(out_array, i):
